@@ -34,7 +34,7 @@ for pid,(eng,tech,ref) in sorted(T.items()):
       "replay_cmd_template":"./check replay {path}",
       "engine":eng,
       "level_claimed":{"category":"model_checking","text":"Bounded-exhaustive exploration: every case in a finite, explicitly stated space (states x operations x parameters, words, byte strings, chunkings, histories up to a depth) is executed on the real implementation and judged by a reference model started from the same pre-state, an invariant, or a second run of the implementation. No sampling, no solver. Bounds and counts are in the evidence.","design_ref":f"DESIGN.md section {ref}"},
-      "level_note":"Holds within the stated bounds (geometries incl. 260x3 / 3x260 and sizes up to 70000, depths, alphabets, lengths; all listed in the evidence under coverage.bounds); unicode width/normalisation tables shared with the subject are trusted; HashMap iteration order is not controlled; the declared don't-care regions D1..D13 (DESIGN.md sections 5 and 12.2) are not compared; internal state that the harness's state key cannot see is only reached through the no-merge history trees and the depth-1 sweeps.",
+      "level_note":"Holds within the stated bounds (geometries incl. 260x3 / 3x260 and sizes up to 70000, depths, alphabets, lengths; all listed in the evidence under coverage.bounds); unicode width/normalisation tables shared with the subject are trusted; HashMap iteration order is not controlled; the declared don't-care regions D1..D15 (DESIGN.md sections 5 and 12.2) are not compared; internal state that the harness's state key cannot see is only reached through the no-merge history trees and the depth-1 sweeps.",
       "technique":tech,
     })
 m={
